@@ -360,7 +360,12 @@ fn step(cx: &mut Ctx, op: &Op) -> R {
             // follows it, step_by, skip, last, count, size_hint (an iterator may override any of them); positions are
             // derived from the size of the set, so that nothing is drawn for them
             let n = cx.w.model.len();
-            if n > 0 {
+            // (not on the rare windows of tens of thousands of years: each of these walks costs a pass over the window)
+            let span = match (cx.w.model.iter().next(), cx.w.model.iter().next_back()) {
+                (Some(lo), Some(hi)) => hi.year() - lo.year(),
+                _ => 0,
+            };
+            if n > 0 && span <= 5_000 {
                 let want: Vec<NaiveDate> = cx.w.model.iter().copied().collect();
                 let (a, k, j) = ((1 + n % 3).min(n), 2 + n % 5, n / 3);
                 let mut it = cx.w.cal.iter();
